@@ -190,6 +190,43 @@ def r5(ctx):
     if n < 2:
         raise AnalysisBroken('C10.R5: returns of hasFullByteOffset not found')
 
+def r10(ctx):
+    ctx.rule('C10.R10', 'the key a field gets in JSON output is its position among the non-ignored fields of the definition, whatever '
+             'is filtered or printed: in the field loop of the formatting DataFieldSet::read every pass that goes on to the next '
+             'field (no return, no break) advances the running output index exactly when an index is wanted and the field is '
+             'not ignored - no path around the increment, whatever the read result or the name filter', minimum=1)
+    fb = ctx.fb
+    n = 0
+    for fn in fb.fns('ebusd::DataFieldSet::read'):
+        if not fn.blocks:
+            continue
+        incs = [(nid, d) for nid, d, rhs, op, lhs in fn.assignments() if d and 'outputindex' in d.split(':')[-1].lower() and op in ('++', '+=')]
+        if not incs:
+            continue
+        nm = incs[0][1].split(':')[-1]
+        heads = [b for b in fn.blocks.values() if b.cond is not None and '__begin' in fn.key(b.cond) and len(b.succs) == 2]
+        if len(heads) != 1:
+            raise AnalysisBroken('C10.R10: field loop of DataFieldSet::read not recognised')
+        h = heads[0]
+        n += 1
+        ctx.touch(fn)
+        cut = list(fn.edges_with_atom('(%s < #0)' % nm, True))
+        for b in fn.blocks.values():
+            if b.cond is not None and len(b.succs) == 2:
+                for j_ in (0, 1):
+                    for conj in facts.implied(fn, fn.effective_cond(b.id), j_ == 0):
+                        for a in conj:
+                            k, p = facts.atom_key(fn, a)
+                            if k.endswith('.isIgnored()') and p and len(facts.implied(fn, fn.effective_cond(b.id), j_ == 0)) == 1:
+                                cut.append((b.id, j_))
+        body = h.succs[0]
+        around = fn.reaches_point(body, (h.id, 0), set(x for x, _ in incs), cut_edges=cut)
+        ctx.ob('C10.R10', fn, incs[0][0], not around, 'advance of the output index',
+               'a pass over a non-ignored field can go on to the next field without advancing the index: %s' % around)
+    if n < 1:
+        raise AnalysisBroken('C10.R10: running output index not found in DataFieldSet::read')
+
+
 def run(ctx):
     r1(ctx)
     r2(ctx)
@@ -204,3 +241,7 @@ def run(ctx):
     import rules.common as _common
     ctx.rule('C10.R8', 'arguments keep their roles across calls: at every call of a repository function in the field/data type sources (offset and length of a field must not be exchanged on the way to its reader or writer) whose arguments are named like parameters of the callee, no two of them are passed crosswise (argument i named like parameter j and argument j like parameter i)', minimum=15)
     _common.swapped_args_rule(ctx, 'C10.R8', ('src/lib/ebus/data',), 15)
+    ctx.borrow(c09.r10, {'C09.R10': 'C10.R9'},
+               'decoding a field alone must select the same field as the whole-message decode: the index handed to the slave '
+               'fields is relative to the slave part and counts only fields of the requested name')
+    r10(ctx)
